@@ -59,7 +59,7 @@ def B(op, l, r):
     return ["bin", op, l, r]
 
 
-def flat_kernels(T):
+def flat_kernels(T, quick=False):
     """[(tree, form, fold, vars, inplace)] for a wide type."""
     lo, hi = trange(T)
     out = []
@@ -68,9 +68,9 @@ def flat_kernels(T):
         out.append((B(op, V("a"), V("b")), "var", False, ["a", "b"], False))
         out.append((B(op, V("a"), V("b")), "inplace", True, ["a", "b"], True))
         if op == "<<":
-            rconsts, lconsts = [0, 1, 5, 31, 32, 63, 64], [1, -1, 3]
+            rconsts, lconsts = ([0, 1, 31, 32, 64], [1, -1]) if quick else ([0, 1, 5, 31, 32, 63, 64], [1, -1, 3])
         else:
-            rconsts, lconsts = [1, 3, -1, -7, hi, lo], [2, -1, hi]
+            rconsts, lconsts = ([3, -1, hi, lo], [2, -1]) if quick else ([1, 3, -1, -7, hi, lo], [2, -1, hi])
         for c in rconsts:
             out.append((B(op, V("a"), C(c)), "constrhs", True, ["a"], False))
         for c in lconsts:
@@ -154,12 +154,12 @@ def module_for(types, seed, quick):
     out = [HEADER] + [tdecl(T) for T in types]
     tyfun = []
     for T in types:
-        items = small_kernels(T) if T in SMALL else flat_kernels(T)
+        items = small_kernels(T) if T in SMALL else flat_kernels(T, quick)
         if T in TYPEDEFS and quick:
             # quick tier: the typedef'd types only differ in helper dispatch, keep the runtime-operand kernels
             items = [it for it in items if it[1] in ("var", "inplace") or it[0][0] == "neg"]
         if T not in SMALL:
-            for tr in draw_trees(T, (4 if T in TYPEDEFS else 10) if quick else 40, seed):
+            for tr in draw_trees(T, (4 if T in TYPEDEFS else 8) if quick else 40, seed):
                 items.append((tr, "tree", True, ["a", "b", "c"], False))
                 items.append((tr, "tree", False, ["a", "b", "c"], False))
         for tr, form, fold, names, inplace in items:
